@@ -24,6 +24,7 @@ let split1 c s = match String.index_opt s c with
   | Some i -> String.sub s 0 i, String.sub s (i + 1) (String.length s - i - 1)
 
 let parse_reg (s : string) : reg =
+  let s = match String.index_opt s ':' with Some i -> String.sub s 0 i | None -> s in
   let vol = String.length s > 1 && s.[String.length s - 1] = 'v' in
   let body = if vol then String.sub s 1 (String.length s - 2) else String.sub s 1 (String.length s - 1) in
   let i = n_of_int (int_of_string body) in
